@@ -242,6 +242,7 @@ where
     replaced_hash: Option<BlobHash>,
     committed: bool,
     keep_protection: bool,
+    protection_released: bool,
 }
 
 #[derive(Debug, Clone, Copy)]
@@ -259,7 +260,16 @@ where
         mut self,
         delete_fn: &crate::types::DeleteBlobCallFn,
     ) -> Result<(), IndexError> {
-        match self.index.apply_put_op(self.key.clone(), self.hash, self.size, delete_fn) {
+        let mut released = false;
+        let result = self.index.apply_put_op(
+            self.key.clone(),
+            self.hash,
+            self.size,
+            delete_fn,
+            &mut released,
+        );
+        self.protection_released = released;
+        match result {
             Ok(()) => {
                 self.committed = true;
                 Ok(())
@@ -285,13 +295,19 @@ where
     K: Clone + Eq + Ord + std::hash::Hash,
 {
     fn drop(&mut self) {
+        // The protection taken at registration is released by `apply_put_op` at the moment the
+        // index starts referencing the blob; it is released here only if the commit never got
+        // that far (and is not kept on purpose, see `commit`).
+        let release = !self.protection_released && !self.keep_protection;
+        if self.committed && !release {
+            return;
+        }
+
         #[cfg(feature = "verif-hooks")]
         crate::verif::point("guard_drop.before_intents");
         let mut intents = self.index.pending_intents.lock();
 
-        // Committed or not, this commit no longer needs its blob to be protected: either the
-        // index references it by now, or the commit is abandoned.
-        if !self.keep_protection {
+        if release {
             intents.unprotect(&self.hash);
         }
 
@@ -387,6 +403,7 @@ where
             replaced_hash,
             committed: false,
             keep_protection: false,
+            protection_released: false,
         })
     }
 
@@ -396,6 +413,7 @@ where
         hash: BlobHash,
         size: u64,
         delete_fn: &crate::types::DeleteBlobCallFn,
+        protection_released: &mut bool,
     ) -> Result<(), IndexError> {
         let logical_op = WalOp::Put { key: key.clone(), hash, size };
         #[cfg(feature = "verif-hooks")]
@@ -415,6 +433,12 @@ where
         };
 
         intents.remove(&key);
+
+        // The index references the blob from here on: stop protecting it on behalf of this
+        // commit right away (still under the intents lock). Keeping the protection until the
+        // guard is dropped would make a removal that runs in between skip the blob for good.
+        intents.unprotect(&hash);
+        *protection_released = true;
 
         // Filter out any unreferenced hashes that in-flight commits still need
         unreferenced_from_op.retain(|hash| !intents.is_protected(hash));
